@@ -13,6 +13,9 @@ package operations
 
 //@ pred knownOpType(t model.TypeOfOperation) = t == model.TypeOfOperation_COUNTER_SNAPSHOT || t == model.TypeOfOperation_MAP_SNAPSHOT || t == model.TypeOfOperation_LIST_SNAPSHOT || t == model.TypeOfOperation_DOC_SNAPSHOT || t == model.TypeOfOperation_ERROR || t == model.TypeOfOperation_TRANSACTION || t == model.TypeOfOperation_COUNTER_INCREASE || t == model.TypeOfOperation_MAP_PUT || t == model.TypeOfOperation_MAP_REMOVE || t == model.TypeOfOperation_LIST_INSERT || t == model.TypeOfOperation_LIST_DELETE || t == model.TypeOfOperation_LIST_UPDATE || t == model.TypeOfOperation_DOC_OBJ_PUT || t == model.TypeOfOperation_DOC_OBJ_RMV || t == model.TypeOfOperation_DOC_ARR_INS || t == model.TypeOfOperation_DOC_ARR_DEL || t == model.TypeOfOperation_DOC_ARR_UPD
 
+// announced(op): the unit length (NumOfOps) encoded in the body of a transaction marker
+//@ function announced(op *model.Operation) int32
+
 // unmarshalBody decodes JSON into c and returns c. Trusted: the decoding itself is encoding/json.
 //@ func unmarshalBody
 //@   trusted json.Unmarshal into the freshly allocated body struct; panics on undecodable bytes (excluded by decodable(op) at the callers)
@@ -31,6 +34,7 @@ package operations
 //@   ensures[type]     result.GetType() == op.OpType
 //@   ensures[tx]       (op.OpType == model.TypeOfOperation_TRANSACTION) == result.(*TransactionOperation)
 //@   ensures[tx-body]  op.OpType == model.TypeOfOperation_TRANSACTION ==> result.(*TransactionOperation).Body.(*TransactionBody)
+//@   assumes[tx-announces] op.OpType == model.TypeOfOperation_TRANSACTION ==> result.(*TransactionOperation).Body.(*TransactionBody).NumOfOps == announced(op)
 //@   ensures[err]      (op.OpType == model.TypeOfOperation_ERROR) == result.(*ErrorOperation)
 //@   ensures[err-body] op.OpType == model.TypeOfOperation_ERROR ==> result.(*ErrorOperation).Body.(*errorBody)
 //@   ensures[snapshot] (op.OpType == model.TypeOfOperation_COUNTER_SNAPSHOT || op.OpType == model.TypeOfOperation_MAP_SNAPSHOT || op.OpType == model.TypeOfOperation_LIST_SNAPSHOT || op.OpType == model.TypeOfOperation_DOC_SNAPSHOT) == result.(*SnapshotOperation)
